@@ -498,6 +498,15 @@ def rejection_probes(case, rng):
     must_reject(lambda: Molecules(pos, Rotation.random(n + 1, random_state=1)), "rotation length mismatch")
     must_reject(lambda: Molecules(pos, features={"q": list(range(n + 1))}), "feature length mismatch")
     must_reject(lambda: Molecules(rng.uniform(0, 1, (n, 2))), "pos with two columns")
+
+    def _agree(mo):     # positions, orientations and feature rows agree (a single placeholder rotation counts as none)
+        nrot = 0 if mo.rotator.single else len(mo.rotator)
+        return mo.pos.shape[0] == nrot == len(mo)
+
+    must_reject(lambda: Molecules(np.zeros((0, 3)), Rotation.random(n, random_state=2)),
+                "no positions but several rotations", consistent=_agree)
+    must_reject(lambda: Molecules(np.zeros((0, 3)), features={"q": list(range(n))}),
+                "no positions but several feature rows", consistent=_agree)
     m = Molecules(pos, features={"uid": list(range(n))})
 
     def set_feat():
